@@ -332,7 +332,9 @@ def run(ctx):
                        ok1, "a function outside the escape choke point writes to the output sink",
                        f.where(c.bb))
     ctx.floor("C02.S1 writes to Output", n1, 10)
-    ev = prog.fn("minijinja::vm::Executor::eval_impl")
+    # the interpreter is read through private helpers a handler may have been moved into (`emit_value(state, out, ..)`)
+    ev = inline.view(prog, prog.fn("minijinja::vm::Executor::eval_impl"), keep=S2_KEEP + (
+        "begin_capture", "end_capture", "perform_include", "perform_super", "call_block", "eval_macro", "load_blocks", "push_loop"))
     disp = arms.enum_switches(prog, ev, INSTR)
     ctx.need(disp, "C02.S1: dispatch switch not found")
     regs = arms.arm_regions(prog, ev, disp[0][0], INSTR)
